@@ -47,6 +47,24 @@ pub fn paths_to_txns(
     TxnData::from(None, txns?, &settings.get_hash())
 }
 
+/// Same selection as the file system storage makes on a checkout:
+/// the file lies below `dir` and its file name has the extension `extension`
+fn is_journal_path(filepath: &[u8], dir: &str, extension: &str) -> bool {
+    let Ok(filepath) = str::from_utf8(filepath) else {
+        return false;
+    };
+    let dir = dir.trim_end_matches('/');
+    let in_dir = dir.is_empty()
+        || filepath
+            .strip_prefix(dir)
+            .is_some_and(|rest| rest.starts_with('/'));
+
+    in_dir
+        && Path::new(filepath)
+            .extension()
+            .is_some_and(|ext| ext == extension)
+}
+
 pub fn git_to_txns(
     repo_path: &Path,
     dir: &str,
@@ -110,12 +128,10 @@ pub fn git_to_txns(
         .files()?
         .iter()
         .map(|entry| {
-            use git::objs::tree::EntryKind::{Blob, Link};
+            use git::objs::tree::EntryKind::{Blob, BlobExecutable, Link};
             match EntryKind::from(entry.mode) {
-                Blob => {
-                    if entry.filepath.starts_with(str::as_bytes(dir))
-                        && entry.filepath.ends_with(str::as_bytes(extension))
-                    {
+                Blob | BlobExecutable => {
+                    if is_journal_path(&entry.filepath, dir, extension) {
                         let obj = repo.find_object(entry.oid)?;
                         // perf: let ts_par_start = SystemTime::now().duration_since(UNIX_EPOCH).unwrap(/*:test:*/);
 
